@@ -162,6 +162,21 @@ func emit(ss []Stmt) []byte {
 			out = append(out, wb.Cat(wb.LocalGet(lP), i32c(s.B), wb.Op(wasm.OpcodeI32Add), wb.LocalSet(lTmp))...)
 		case "settmpx":
 			// tmp := p <op> B with 32-bit wrap-around (shl / mul / add / sub)
+			if s.Op == "growres" {
+				// tmp := memory.grow(B): the previous size in pages, or -1 (0xffffffff as an address) when the growth fails
+				out = append(out, wb.Cat(i32c(s.B), wb.MemoryGrow(), wb.LocalSet(lTmp))...)
+				continue
+			}
+			if sx := map[string][]byte{"ext8s": {wasm.OpcodeI32Extend8S}, "ext16s": {wasm.OpcodeI32Extend16S}}[s.Op]; sx != nil {
+				// tmp := i32.extendN_s(p + B): negative results are large 32-bit addresses
+				out = append(out, wb.Cat(wb.LocalGet(lP), i32c(s.B), wb.Op(wasm.OpcodeI32Add), sx, wb.LocalSet(lTmp))...)
+				continue
+			}
+			if sop := map[string]byte{"shrs": wasm.OpcodeI32ShrS, "rems": wasm.OpcodeI32RemS, "divs": wasm.OpcodeI32DivS}[s.Op]; sop != 0 {
+				// tmp := p <signed op> B
+				out = append(out, wb.Cat(wb.LocalGet(lP), i32c(s.B), wb.Op(sop), wb.LocalSet(lTmp))...)
+				continue
+			}
 			if s.Op == "wrap" || s.Op == "wrapadd" {
 				// tmp := i32.wrap_i64(x) where x is a 64-bit value whose UPPER half is not zero at run time:
 				// wrap: x = extend_u(p) | (B|1)<<32 (tmp = p); wrapadd: x = extend_u(p) + ((B|1)<<32 + 16) (tmp = p + 16).
@@ -420,6 +435,23 @@ func (r *ref) exec(ss []Stmt) int {
 				r.tmp = r.lp
 			case "wrapadd":
 				r.tmp = r.lp + 16
+			case "growres":
+				if uint64(r.pages)+uint64(s.B) <= uint64(r.p.Max) {
+					r.tmp = r.pages
+					r.pages += s.B
+				} else {
+					r.tmp = 0xffffffff
+				}
+			case "ext8s":
+				r.tmp = uint32(int32(int8(r.lp + s.B)))
+			case "ext16s":
+				r.tmp = uint32(int32(int16(r.lp + s.B)))
+			case "shrs":
+				r.tmp = uint32(int32(r.lp) >> (s.B % 32))
+			case "rems":
+				r.tmp = uint32(int32(r.lp) % int32(s.B)) // (generator: B is neither 0 nor -1)
+			case "divs":
+				r.tmp = uint32(int32(r.lp) / int32(s.B))
 			}
 		case "settmp":
 			r.tmp = r.lp + s.B
